@@ -74,6 +74,16 @@ Theorem c20_order_complete : forall ops s i c, nth_error s i = Some c -> live c 
 Proof. exact nrun_delivered_all. Qed.
 Print Assumptions c20_order_complete.
 
+(* ... and also for a subscriber that reads late, interleaved with the publications in any way: as
+   long as its queue has a free slot whenever something is published (it never lags by more than the
+   capacity), what it is handed is EXACTLY the published sequence — the same events (an event carries
+   its certificate bytes), in the same order. *)
+Theorem c20_lagging_reader_complete : forall ops s i c, nth_error s i = Some c -> live c = true ->
+  Forall (fun o => o <> NUnsub i) ops -> never_full i ops s = true ->
+  exists c', nth_error (nrun ops s) i = Some c' /\ delivered c' = delivered c ++ pubs ops.
+Proof. exact nrun_lagging_all. Qed.
+Print Assumptions c20_lagging_reader_complete.
+
 (* ---------------------------------------------------------------- history *)
 Open Scope Z_scope.
 
